@@ -10,8 +10,9 @@ META = {
         "byte-flip detection as a numeric fact: it follows from coverage (csum_t/jcsum_t) plus the burst-error "
         "property of a CRC, which is not decided here",
         "crc32c/crc32_be: the monolithic equivalence of one full 8-byte slice step with the bitwise definition "
-        "(XOR-linear, no back end finishes); decided instead: all tables, the byte step, both 4-lookup halves, "
-        "whole function for short lengths at all alignments",
+        "(XOR-linear, no back end finishes); decided instead: all tables, the byte step, one slice step for every "
+        "single non-zero byte lane, whole function for short lengths at all alignments; extension to all inputs is "
+        "the GF(2)-linearity argument",
         "read/write paths that call the set/verify routines (inode.c, dirblock.c, extent.c, ext_attr.c, "
         "rw_bitmaps.c, mmp.c, closefs.c): only the routines themselves are encoded",
         "inode sizes other than 128/256, descriptor sizes other than 32/64, block sizes other than the small ones "
@@ -41,7 +42,10 @@ def t_uw(osz, extra=()):
 def csum_t_cfgs():
     c = []
     def base(osz, extra=()):
-        return {"_unwindset": t_uw(osz, extra)}
+        d = {"_unwindset": t_uw(osz, extra)}
+        if osz >= 1024:
+            d["_backends"] = ["kissat", "default"]     # measured: kissat 10-45 s, minisat 130 s on the 1024-byte objects
+        return d
     for isz in (128, 256):
         c.append(dict(base(isz, ["ext2fs_inode_csum_verify.0:130"]), OBJ=O["INODE"], ISIZE=isz))
     c.append(dict(base(256, ["ext2fs_inode_csum_verify.0:130"]), OBJ=O["INODE"], ISIZE=256, CSUM=0))
@@ -55,23 +59,26 @@ def csum_t_cfgs():
         c.append(dict(base(64), OBJ=O[o], CSUM=0))
     for o in ("SUPER", "MMP"):
         c.append(dict(base(1024), OBJ=O[o]))
-        c.append(dict(base(1024), OBJ=O[o], CSUM=0))
+        c.append(dict(base(1024), OBJ=O[o], CSUM=0, _tier="thorough"))
     c.append(dict(base(8), OBJ=O["SEED"]))
     c.append(dict(base(128), OBJ=O["DX"], BS=128, _tier="thorough"))
     c.append(dict(base(128), OBJ=O["EXTENT"], BS=128, _tier="thorough"))
     db = base(1024, ["__get_dirent_tail.0:5"])
     for lay in ({"R1": 1012}, {"R1": 12, "R2": 1000}, {"R1": 12, "R2": 12, "R3": 988},
                 {"R1": 1016}, {"R1": 500, "R2": 10}):
-        c.append(dict(db, OBJ=O["DIRENT"], NSTEP=3, **lay))
-    c.append(dict(db, OBJ=O["DIRENT"], NSTEP=3, CSUM=0, R1=1012))
+        quick = lay in ({"R1": 12, "R2": 1000}, {"R1": 1016})
+        c.append(dict(db, OBJ=O["DIRENT"], NSTEP=3, _tier="quick" if quick else "thorough", **lay))
+    c.append(dict(db, OBJ=O["DIRENT"], NSTEP=3, CSUM=0, R1=1012, _tier="thorough"))
     return c
 
 
 def crc32_cfgs():
-    c = [{"MODE": 1}, {"MODE": 2}]
+    c = [{"MODE": 3, "LEN": 1, "OFF": 0}, {"MODE": 1}, {"MODE": 2}]
     for ln in (0, 1, 2, 3):
         for al in range(8):
             quick = (ln == 1 and al in (0, 1, 3)) or (ln == 2 and al in (0, 3)) or (ln == 0 and al == 1)
+            if (ln, al) == (1, 0):
+                continue
             c.append({"MODE": 3, "LEN": ln, "OFF": al, "_tier": "quick" if quick else "thorough"})
     for ln, al in ((1, 0), (1, 1), (2, 2)):
         c.append({"MODE": 4, "LEN": ln, "OFF": al})
@@ -79,8 +86,14 @@ def crc32_cfgs():
         for al in range(8):
             if (ln, al) not in ((1, 0), (1, 1), (2, 2)):
                 c.append({"MODE": 4, "LEN": ln, "OFF": al, "_tier": "thorough"})
-    for m in (5, 6, 7, 8):
-        c.append({"MODE": m})
+    for m in (5, 7):
+        c.append({"MODE": m, "_backends": ["kissat", "default"]})
+    # single-lane queries through prologue / slice steps / epilogue: (LEN, OFF)
+    for ln, al, quick in ((5, 0, True), (19, 2, True), (7, 3, False), (12, 1, False), (16, 0, False), (17, 7, False)):
+        c.append({"MODE": 5, "LEN": ln, "OFF": al, "_backends": ["kissat", "default"],
+                  "_tier": "quick" if quick else "thorough"})
+    c.append({"MODE": 7, "LEN": 13, "OFF": 1, "_backends": ["kissat", "default"]})
+    c.append({"MODE": 7, "LEN": 19, "OFF": 2, "_backends": ["kissat", "default"], "_tier": "thorough"})
     return c
 
 
@@ -93,18 +106,31 @@ HARNESSES = [
                "block of 1024 bytes with a concrete rec_len chain shape per query (3 valid, 2 invalid), all other bytes symbolic; superblock and MMP block "
                "1024 bytes; all identity terms (inum, generation, group, block number, seed, uuid) and all "
                "other feature bits symbolic"),
+    dict(name="jcsum_t", src="jcsum_t.c",
+         funcs=["jbd2_descriptor_block_csum_verify", "jbd2_descriptor_block_csum_set"],
+         configs=[{"JOBJ": 1, "JCSUM": 3}, {"JOBJ": 1, "JCSUM": 2}, {"JOBJ": 1, "JCSUM": 0},
+                  {"JOBJ": 2, "JCSUM": 3}, {"JOBJ": 2, "JCSUM": 2}, {"JOBJ": 2, "JCSUM": 0},
+                  {"JOBJ": 3, "JCSUM": 2}, {"JOBJ": 4, "JCSUM": 3}, {"JOBJ": 3, "JCSUM": 0},
+                  {"JOBJ": 5, "JCSUM": 3, "_backends": ["kissat", "default"]},
+                  {"JOBJ": 5, "JCSUM": 2, "_backends": ["kissat", "default"]},
+                  {"JOBJ": 5, "JCSUM": 0, "_tier": "thorough"}],
+         unwindset=["main.%d:1100" % i for i in range(8)] + [ "ref_e_block_zeroed.0:1100", "vf_unchanged_except.0:1100",
+                    "vf_tl_chain_ok.0:8", "vf_tl_result.0:8", "stub_tl_call.0:8", "stub_tl_call.1:1045"],
+         unwind=4, backends=["default", "kissat"],
+         bound="journal block size 64 bytes (descriptor/revoke tail, commit block, tagged data block); journal "
+               "superblock 1024 bytes; every byte, the seed and the sequence number symbolic; csum v2 / v3 / none"),
     dict(name="crc16_d", src="crc16_d.c", funcs=["ext2fs_crc16"],
-         configs=[{"MODE": 1}] + [{"MODE": 2, "LEN": n} for n in (0, 1, 2, 3)],
+         configs=[{"MODE": 2, "LEN": n} for n in (2, 0, 1, 3)] + [{"MODE": 1}],
          unwindset=["ref_crc16_byte.0:9", "main.0:5", "ext2fs_crc16.0:5"], backends=["default", "kissat", "z3"],
          bound="all 256 table entries; whole function for lengths 0..3, every 32-bit incoming value and content"),
-    dict(name="crc32c_d", src="crc32c_d.c", funcs=["ext2fs_crc32c_le", "crc32_body", "ext2fs_crc32_be"],
+    dict(name="crc32c_d", src="crc32c_d.c", funcs=["ext2fs_crc32c_le", "crc32_body"],
          configs=crc32_cfgs(),
-         unwindset=["ref_le_byte.0:9", "ref_be_byte.0:9", "main.0:9", "main.1:9", "crc32_body.0:5", "crc32_body.1:3",
-                    "crc32_body.2:9"],
+         unwindset=["ref_le_byte.0:9", "ref_be_byte.0:9", "main.0:24", "main.1:24", "crc32_body.0:5", "crc32_body.1:3",
+                    "crc32_body.2:9", "main.2:24", "main.3:24"],
          backends=["default", "kissat", "z3"],
          bound="all 8x256 entries of both tables; whole function lengths 0..3 at alignments 0..7 (quick: a "
-               "subset), symbolic seed and data; one aligned slice-by-8 step split in its two linear halves "
-               "(32 symbolic bits each)"),
+               "subset), symbolic seed and data; whole function with one non-zero byte lane (every lane, 256 values) "
+               "for lengths 5..19 at mixed offsets (prologue, up to two slice-by-8 steps, epilogue)"),
 ]
 
 MANIFEST = {
